@@ -132,7 +132,7 @@ StrLzVerdict(f, bytes, ov, tag) ==
   LET n == ByteAtBit(bytes, f.off)
       txt == [k \in 1..n |-> ByteAtBit(bytes, f.off + 8 * k)]
   IN IF f.off % 8 # 0 \/ (f.off \div 8) + 1 + n > Len(bytes) THEN "ok"
-     ELSE IF \E k \in 1..n : txt[k] >= 128 THEN "ok"
+     ELSE IF \E k \in 1..n : txt[k] >= 128 \/ txt[k] = 0 THEN "ok"               \* NUL inside the counted text: not judged (as for STRING_LAU)
      ELSE IF ov.k = "str" /\ ov.cp = txt THEN "ok" ELSE tag \o ".lz-text"
 
 BinVerdict(code, ov, tag) ==
